@@ -5,7 +5,7 @@
     references to them, so that sharing (aliasing) is explicit.  [Keeps w w']: every list cell,
     every function object, every class, every module binding and every registration of [w] is found
     unchanged in [w'] - hence every contract list and every verdict derived from them. *)
-From ICV Require Import Base Bind Checker Elab ElabFrame.
+From ICV Require Import Base Bind Checker Elab ElabFrame ElabClassFrame.
 Open Scope string_scope.
 Open Scope list_scope.
 
@@ -22,17 +22,28 @@ Theorem C17_failed_definition_binds_nothing w m e :
   step_def w (DefFunction m) = Err e -> fail_def w (DefFunction m) = w.
 Proof. reflexivity. Qed.
 
-(** The same statement for class statements (metaclass merge, class decorators) is
-    [C17_class_frame]; it is established on every run by the correspondence of harness/c17.py
-    (identity and contents of all lists of all earlier classes after every step, compared with the
-    model) and stated here for the record:
+(** Class statements: member definitions, the work of the meta-class (merging inherited contracts
+    into the members' checkers and the invariant lists), invariant wrappers, registration, class
+    decorators.  Every list cell, function object and class that existed before is unchanged, module
+    bindings are untouched, the registrations only grow ([KeepsC]) - provided a list the new class
+    shows through attribute lookup is its own object ([OwnLists], what the repair of D15 makes the
+    meta-class establish; evaluated on every class of every generated history on every run:
+    [own_lists_everywhere] in Spec/ElabOracle.v).  The hypothesis is discharged for classes without
+    bases and for class statements without enabled class decorators. *)
+Theorem C17_class_statement_frame w d w' :
+  define_class w d = Ok w' ->
+  (forall w5 k, define_class_pre w d = Ok (w5, k) -> OwnLists w5 k) ->
+  KeepsC w w'.
+Proof. exact (define_class_frame w d w'). Qed.
+Print Assumptions C17_class_statement_frame.
 
-      forall w d w', define_class w d = Ok w' ->
-        (created through DBCMeta or no base has invariants) -> KeepsClasses w w'.
+Theorem C17_class_statement_frame_no_bases w d w' :
+  define_class w d = Ok w' -> cd_bases d = [] -> KeepsC w w'.
+Proof. exact (define_class_frame_no_bases w d w'). Qed.
 
-    Its proof follows the same freshness argument (every cell appended to and every object assigned
-    to by [define_class] is allocated by that very statement) and is not finished: C17 is claimed
-    as proved for function decoration and as checked by correspondence for class creation. *)
+Theorem C17_class_statement_frame_no_decorators w d w' :
+  define_class w d = Ok w' -> forallb (fun i => negb (id_enabled i)) (cd_invs d) = true -> KeepsC w w'.
+Proof. exact (define_class_frame_no_decorators w d w'). Qed.
 
 (** Non-vacuity: decorating a second function leaves the first one's checker lists untouched. *)
 Definition c (n : Z) : contract := {| cid := n; cargs := []; cmandatory := []; ckind_ := CKPlain; cerror := ENone; clambda := false |}.
